@@ -649,6 +649,67 @@ func emitSkeleton(rel string, f *ast.File, goName, leanName string) {
 		goName, rel, leanName, term)
 }
 
+// emitLoops emits, for every `for … := range transaction.Status.Proposals` of a function (in source
+// order, k = 1, 2, …), two more functions: `<lean>_loop<k>_body`, the trace of ONE iteration ending in
+// the token `.misc "next"` where the iteration hands over to the next one (end of the body, `continue`)
+// or in a return; and `<lean>_loop<k>_after`, the trace of the statements that follow the loop in its
+// block.  With them a loop over ANY number of proposals is tied (the whole-function skeleton holds the
+// body once): Lean iterates the body over the list (`OnosVerif/V2/SkelLoop.lean`).
+func emitLoops(rel string, f *ast.File, goName, leanName string) {
+	fd := findFunc(f, goName)
+	if fd == nil || fd.Body == nil {
+		return
+	}
+	k := 0
+	// outer: the statements that run after `list` is done (the rest of the enclosing blocks up to the
+	// function's end; nothing is carried out of a loop body)
+	var visit func(list []ast.Stmt, outer []ast.Stmt)
+	visit = func(list []ast.Stmt, outer []ast.Stmt) {
+		for i, st := range list {
+			follow := append(append([]ast.Stmt{}, list[i+1:]...), outer...)
+			switch x := st.(type) {
+			case *ast.RangeStmt:
+				if exprString(x.X) == "transaction.Status.Proposals" {
+					k++
+					c := &skCtx{callOrd: map[token.Pos]int{}, tracked: map[string]bool{}}
+					for _, r := range skTrackedRoots {
+						c.tracked[r] = true
+					}
+					c.prepass(fd)
+					next := "[.misc \"next\"]"
+					body := c.block(x.Body.List, next, next, "  ")
+					fmt.Fprintf(&out, "/-- one iteration of loop %d over `transaction.Status.Proposals` in `%s` (%s): ends in `.misc \"next\"` or in a return -/\ndef %s_loop%d_body (g : V2G) : List Tok :=\n  %s\n\n",
+						k, goName, rel, leanName, k, body)
+					c2 := &skCtx{callOrd: map[token.Pos]int{}, tracked: c.tracked}
+					c2.prepass(fd)
+					after := c2.block(follow, "[.ret \"(end)\" []]", "", "  ")
+					fmt.Fprintf(&out, "/-- the statements after loop %d of `%s` in its block -/\ndef %s_loop%d_after (g : V2G) : List Tok :=\n  %s\n\n",
+						k, goName, leanName, k, after)
+				}
+				visit(x.Body.List, nil)
+			case *ast.BlockStmt:
+				visit(x.List, follow)
+			case *ast.IfStmt:
+				visit(x.Body.List, follow)
+				if eb, ok := x.Else.(*ast.BlockStmt); ok {
+					visit(eb.List, follow)
+				}
+			case *ast.ForStmt:
+				visit(x.Body.List, nil)
+			case *ast.SwitchStmt:
+				for _, cc := range x.Body.List {
+					visit(cc.(*ast.CaseClause).Body, follow)
+				}
+			case *ast.TypeSwitchStmt:
+				for _, cc := range x.Body.List {
+					visit(cc.(*ast.CaseClause).Body, follow)
+				}
+			}
+		}
+	}
+	visit(fd.Body.List, nil)
+}
+
 func init() {
 	sections = append(sections, func() {
 		out.WriteString("/-! ## control skeletons of the v2 reconcilers -/\n\n")
@@ -684,6 +745,9 @@ func init() {
 					emitSkeletonSym(unit.rel, f, x.goName, x.leanName)
 				} else {
 					emitSkeleton(unit.rel, f, x.goName, x.leanName)
+					if strings.HasPrefix(x.leanName, "v2sk_tx_") && x.leanName != "v2sk_tx_dispatch" && x.leanName != "v2sk_tx_initialize" {
+						emitLoops(unit.rel, f, x.goName, x.leanName)
+					}
 				}
 			}
 		}
